@@ -73,6 +73,7 @@ type replayCase struct {
 	Geom   geom   `json:"geometry"`
 	Config string `json:"config,omitempty"`
 	Place  int    `json:"place,omitempty"`
+	Prev   *geom  `json:"previous_launch_geometry,omitempty"` // reginit-seq: launched before on the same CU with the same code object
 	CUs    []int  `json:"cu_counts,omitempty"`
 }
 
@@ -584,15 +585,37 @@ func checkRegs(mode string, g geom, cfg regCfg, wg *kernels.WorkGroup, wfi int, 
 }
 
 func checkRegInit(g geom, cfg regCfg, pl int, rig *timingRig, lanes *int64) *viol {
+	return checkRegInitWith(codeObject(cfg), g, cfg, pl, rig, lanes, []string{"emu", "timing"})
+}
+
+// checkRegInitSeq: launch history. The same code object is launched with geometry prev and then with g on the
+// same compute unit (timing mode); the registers of the second launch are judged exactly like a first launch.
+func checkRegInitSeq(prev, g geom, cfg regCfg, pl int, lanes *int64) *viol {
+	co := codeObject(cfg)
+	rig := newTimingRig()
+	var n int64
+	if v := checkRegInitWith(co, prev, cfg, pl, rig, &n, []string{"timing"}); v != nil {
+		return nil // a defect of the first launch alone is reported by the single-launch pass
+	}
+	v := checkRegInitWith(co, g, cfg, pl, rig, lanes, []string{"timing"})
+	if v != nil {
+		pg := prev
+		v.sig = strings.Replace(v.sig, "reginit/", "reginit-after-another-launch/", 1)
+		v.msg = "after a launch of the same kernel with " + prev.String() + " on the same compute unit: " + v.msg
+		v.rc.Kind, v.rc.Prev = "reginit-seq", &pg
+	}
+	return v
+}
+
+func checkRegInitWith(co *insts.KernelCodeObject, g geom, cfg regCfg, pl int, rig *timingRig, lanes *int64, modes []string) *viol {
 	mk := func(sig, msg string) *viol {
 		return &viol{sig: sig, msg: g.String() + ": " + msg, rc: replayCase{Kind: "reginit", Geom: g, Config: cfg.name, Place: pl}, weight: weight(g)}
 	}
-	co := codeObject(cfg)
 	res := checkGrid(g, co)
 	if res.v != nil || res.spans != nil {
 		return nil // the builder's own defect is reported by the grid pass; registers of a malformed wavefront are not judged
 	}
-	for _, mode := range []string{"emu", "timing"} {
+	for _, mode := range modes {
 		cover := make([]uint8, g.items())
 		for _, wg := range res.wgs {
 			var twg *wavefront.WorkGroup
@@ -997,6 +1020,41 @@ func main() {
 	}) {
 		exhaustive = false
 	}
+	// ---- (2b) launch history: the same kernel launched twice with different work-group shapes on one CU
+	shapes := []geom{
+		{G: [3]uint32{32, 32, 1}, W: [3]uint16{16, 16, 1}}, {G: [3]uint32{64, 16, 1}, W: [3]uint16{32, 8, 1}}, {G: [3]uint32{512, 1, 1}, W: [3]uint16{256, 1, 1}},
+		{G: [3]uint32{16, 16, 1}, W: [3]uint16{8, 8, 1}}, {G: [3]uint32{12, 10, 6}, W: [3]uint16{6, 5, 3}}, {G: [3]uint32{6, 10, 12}, W: [3]uint16{3, 5, 6}},
+		{G: [3]uint32{128, 1, 1}, W: [3]uint16{64, 1, 1}}, {G: [3]uint32{2, 128, 1}, W: [3]uint16{1, 64, 1}}, {G: [3]uint32{100, 3, 1}, W: [3]uint16{50, 3, 1}},
+		{G: [3]uint32{7, 9, 1}, W: [3]uint16{4, 4, 1}},
+	}
+	type stask struct {
+		a, b geom
+		cfg  regCfg
+	}
+	var stasks []stask
+	for ci, c := range regCfgs {
+		if !r.Thorough() && ci >= 2 {
+			continue
+		}
+		for i, a := range shapes {
+			for j, b := range shapes {
+				if i != j {
+					stasks = append(stasks, stask{a, b, c})
+				}
+			}
+		}
+	}
+	var nSeq int64
+	if !r.ForEach(len(stasks), func(i int) {
+		var lanes int64
+		col.add(checkRegInitSeq(stasks[i].a, stasks[i].b, stasks[i].cfg, i%len(places), &lanes))
+		atomic.AddInt64(&nSeq, 1)
+		atomic.AddInt64(&nLanes, lanes)
+	}) {
+		exhaustive = false
+	}
+	fmt.Printf("register initialisation after another launch of the same kernel: %d ordered shape pairs x conventions\n", nSeq)
+	r.Cov["reginit_launch_sequences"] = nSeq
 	tReg := time.Since(t0).Seconds() - tGrid
 	fmt.Printf("register initialisation: %d (geometry, code-object convention, placement) cases in both modes, %d enabled lanes decoded\n", nReg, nLanes)
 
@@ -1101,13 +1159,16 @@ func replay(r *harness.Run) {
 			}
 			var n int64
 			return checkSkip(c.Geom, baseCO, res.wgs, &n)
-		case "reginit":
+		case "reginit", "reginit-seq":
 			cfg, ok := cfgByName(c.Config)
 			if !ok {
 				fmt.Fprintln(os.Stderr, "unknown config", c.Config)
 				os.Exit(2)
 			}
 			var n int64
+			if c.Kind == "reginit-seq" && c.Prev != nil {
+				return checkRegInitSeq(*c.Prev, c.Geom, cfg, c.Place, &n)
+			}
 			return checkRegInit(c.Geom, cfg, c.Place, newTimingRig(), &n)
 		case "filter":
 			var n, e int64
